@@ -107,6 +107,11 @@ def lean_bounds(chk, d, ents):
                           {"kernel": c.name, "mentions": m[1:]})
         if bad is not None:
             ent, prm, r = bad
+            if "unsupported" in r and "int array decl" in " ".join(r):
+                # model limitation (multi-dimensional integer tables, e.g. facet_edge_vertices): counted, covered by the C search only
+                chk.case("model_unsupported_int_array_decl", None)
+                chk.notes.setdefault("model_unsupported", []).append(c.name)
+                continue
             if "oob" not in r:
                 # the model could not run the kernel (unsupported node, bad index expression, parse error): the tie is
                 # broken, but that is not an out-of-bounds access
@@ -148,23 +153,30 @@ def _c_worker_factory(ents, seed):
             for ent, prm in space:
                 inp = kernels.random_inputs(c, rng, A0="zeros", entity=ent, perm=prm, dyadic=False)
 
-                def padded(a):
-                    buf = np.full(a.size + 2 * PAD, np.nan)
+                def padded(a, fill):
+                    buf = np.full(a.size + 2 * PAD, fill)
                     buf[PAD:PAD + a.size] = a
                     return buf
-                bw, bc, bx = padded(inp["w"]), padded(inp["c"]), padded(inp["coordinate_dofs"])
-                bA = np.full(c.sizes["A"] + 2 * PAD, 12345.678)
-                bA[PAD:PAD + c.sizes["A"]] = 0.0
                 ent_ = np.full(len(ent) + 2, 0, dtype=np.intc)
                 ent_[:len(ent)] = ent
                 prm_ = np.full(len(prm) + 2, 0, dtype=np.uint8)
                 prm_[:len(prm)] = prm
-                pipeline.call_kernel(mod, ko, "float64", bA[PAD:PAD + max(c.sizes["A"], 1)], bw[PAD:], bc[PAD:], bx[PAD:], ent_, prm_)
-                out["calls"] += 1
-                if not (np.all(bA[:PAD] == 12345.678) and np.all(bA[PAD + c.sizes["A"]:] == 12345.678)):
-                    out["bad"].append({"kernel": c.name, "what": "write outside A", "entity": ent, "perm": prm})
-                if np.isnan(bA[PAD:PAD + c.sizes["A"]]).any():
-                    out["bad"].append({"kernel": c.name, "what": "NaN sentinel outside an input extent reached A (out-of-bounds read)",
+                res = []
+                # the same in-extent data with three different paddings: NaN and two finite values. A result that depends on
+                # the padding was computed from a read outside an input extent. (NaN alone is not a witness: a math function
+                # outside its domain on the random in-extent data gives NaN as well.)
+                for fill in (np.nan, 7.25e11, -3.5e-7):
+                    bw, bc, bx = padded(inp["w"], fill), padded(inp["c"], fill), padded(inp["coordinate_dofs"], fill)
+                    bA = np.full(c.sizes["A"] + 2 * PAD, 12345.678)
+                    bA[PAD:PAD + c.sizes["A"]] = 0.0
+                    pipeline.call_kernel(mod, ko, "float64", bA[PAD:PAD + max(c.sizes["A"], 1)], bw[PAD:], bc[PAD:], bx[PAD:], ent_, prm_)
+                    out["calls"] += 1
+                    if not (np.all(bA[:PAD] == 12345.678) and np.all(bA[PAD + c.sizes["A"]:] == 12345.678)):
+                        out["bad"].append({"kernel": c.name, "what": "write outside A", "entity": ent, "perm": prm})
+                        break
+                    res.append(bA[PAD:PAD + c.sizes["A"]].copy())
+                if len(res) == 3 and not (np.array_equal(res[0], res[1], equal_nan=True) and np.array_equal(res[1], res[2], equal_nan=True)):
+                    out["bad"].append({"kernel": c.name, "what": "result depends on data outside an input extent (out-of-bounds read)",
                                        "entity": ent, "perm": prm})
         return out
     return work
@@ -193,7 +205,7 @@ def run(chk):
     chk.rule = ("every kernel AST of the corpus is executed by the Lean driver over the one-point domain with arrays of exactly the "
                 "contract extents (computed from the UFL form and Basix, not from FFCx's IR), for every valid (entity, permutation) "
                 "argument tuple when there are at most 300 (quick) / 1200 (thorough) of them, otherwise for all tuples at the extreme values "
-                "of either argument plus a seeded sample (listed in reduced_entity_perm_products); distinct = kernel × variant. search: compiled C kernels called with NaN-sentinel padded inputs "
+                "of either argument plus a seeded sample (listed in reduced_entity_perm_products); distinct = kernel × variant. search: compiled C kernels called on the same data with three different paddings around w, c and coordinate_dofs (a result that depends on the padding read outside an extent) "
                 "and canaries around A.")
     chk.trusted += ["harness/kernels.py contract extents (computed from UFL form data and Basix)",
                     "the driver's evaluation `exec uExtra k τ = ok` is not kernel-checked"]
